@@ -294,8 +294,8 @@ def domain(ctx, focus):
 def run_family(ctx, cases, prop, focus="history"):
     res = Result()
     if cases is None:
-        for cfg, expect in (("good", None), ("nocopy", "violated"), ("noreset", "violated"), ("keeptokens", "violated"), ("sharedtokens", "violated")):
-            r = tlc.run("MC_ParserObject", "MC_ParserObject_%s.cfg" % cfg, ctx.work, workers=4, timeout=900)
+        for cfg, expect in (("good" if ctx.quick else "good6", None), ("nocopy", "violated"), ("noreset", "violated"), ("keeptokens", "violated"), ("sharedtokens", "violated")):
+            r = tlc.run("MC_ParserObject", "MC_ParserObject_%s.cfg" % cfg, ctx.work, workers=4 if ctx.quick else 12, timeout=2400, xmx="8g")
             res.add_tlc(r, "model " + cfg)
             if expect is None and not r.ok():
                 raise tlc.TLCError("ParserObject model violates %s\n%s" % (r.violated, r.out[-1500:]))
